@@ -60,6 +60,9 @@ M = [
  ("crowd-remove-prefix-in-chunks-of-1000", "src/store/fs.rs", "            let count = iter.count();\n            Ok(count)", "            let count = iter.take(1000).count();\n            Ok(count)", ["C02", "C01"]),
  ("crowd-at-most-64-subscribers-kept", "src/sync.rs", "            .into_iter()\n            .flatten()\n            .collect();\n    }\n    pub fn len", "            .into_iter()\n            .flatten()\n            .take(64)\n            .collect();\n    }\n    pub fn len", ["C12"]),
  ("session-heads-received-first-entry-only", "src/sync.rs", "        for (entry, _content_status) in message.values() {\n            state", "        for (entry, _content_status) in message.values().take(1) {\n            state", ["C13"]),
+ ("live-report-dials-without-news", "src/engine/live.rs", "            Ok(None) => {\n                debug!(\"no news reported: nothing to do\");\n            }", "            Ok(None) => {\n                self.sync_with_peer(report.namespace, from, SyncReason::SyncReport);\n            }", ["C13"]),
+ ("live-report-after-every-session", "src/engine/live.rs", "                if details.outcome.num_recv > 0 {", "                if details.outcome.num_recv + details.outcome.num_sent > 0 || true {", ["C13"]),
+ ("live-report-unbounded", "src/engine/live.rs", "                        .encode(Some(self.gossip.max_message_size()))", "                        .encode(None)", ["C13"]),
  ("migration-001-keeps-smallest", "src/store/fs/migrations.rs", "                if timestamp >= e.0 {", "                if timestamp < e.0 {", ["C18"]),
  ("migration-004-wrong-column-order", "src/store/fs/migrations.rs", "        let id = (namespace, key, author);\n        by_key_table.insert(id, ())?;", "        let id = (author, key, namespace);\n        by_key_table.insert(id, ())?;", ["C18"]),
  ("fix-d1-reverted-parents-skip-markers", "src/store/fs.rs", "let entry = get_exact(table, namespace, author, &key, true);", "let entry = get_exact(table, namespace, author, &key, false);", ["C02", "C01", "C04", "C08"]),
